@@ -15,7 +15,7 @@ ID = 'C16'
 TEXTS = ['abAb', 'aab', 'a.b', '(a)', 'aaa', '']
 PLAIN = ['a', 'ab', 'b', '.', 'a.', '(', 'A', '']
 REGEX = ['a', 'a|b', 'b*', '(?=a)', '[ab]+', 'a?', 'A', '(a)(b)?']
-COUNTS = [-1, 0, 1, 2, 10]
+COUNTS = [-1, -2, 0, 1, 2, 10]
 
 
 def tasks(tier, seed):
